@@ -40,7 +40,8 @@ static INIT: Once = Once::new();
 
 #[unsafe(no_mangle)]
 pub extern "C" fn redirectionio_log_init_stderr() {
-    stderrlog::new().init().unwrap();
+    // a logger may already be installed (second call, or the host installed one): keep it
+    let _ = stderrlog::new().init();
 }
 
 #[unsafe(no_mangle)]
